@@ -9,6 +9,11 @@ import traceback
 from . import facts, model, analysis, anchor
 
 VERIF = facts.VERIF
+UNITS_PROPS = ("C02", "C03", "C04", "C05", "C06", "C07", "C17", "C19")
+UNITS_NOTE = (" (U) Units-of-measure analysis (rule id %s.U, rules/units.py): every function of the program that touches share counts, share values, token "
+              "amounts or dollar limits is dimensionally consistent - asset shares, liability shares, tokens and dollars (dimensions of the leaves fixed by "
+              "the state field names and the converter API, everything else inferred by unification over the expression trees) are combined only through "
+              "the share-value converters; a function with no consistent assignment (shares compared with / subtracted from / passed as an amount) is reported.")
 
 
 # development runs against a scratch tree (VERIF_REPO) never touch the registered evidence files
@@ -118,6 +123,10 @@ def _eval_config(job):
                 snapshot.check_snapshot(ctx, pid)
             except AnchorMissing:
                 pass
+            # (U) units-of-measure analysis (rules/units.py) for the properties that own share / token / dollar arithmetic
+            from rules import units
+            if pid in units.PROPS:
+                units.check_units(ctx, pid)
     except AnchorMissing:
         pass
     except Exception:
@@ -220,7 +229,7 @@ def run_property(pid, tier, replay=None):
     ev = {
         "property_id": pid, "tier": tier, "seed": seed, "level": "other",
         "coverage": {
-            "explanation": info.get("explanation", "") + " (S) In addition the complete path tables (conditions => result | stores) of the small shared helpers this property relies on are compared with the reviewed snapshot rules/leaf_snapshot.json (rule id %s.S); (K) numeric kernels and leaf helpers pinned in rules/kernels.py." % pid,
+            "explanation": info.get("explanation", "") + " (S) In addition the complete path tables (conditions => result | stores) of the small shared helpers this property relies on are compared with the reviewed snapshot rules/leaf_snapshot.json (rule id %s.S); (K) numeric kernels and leaf helpers pinned in rules/kernels.py." % pid + (UNITS_NOTE % pid if pid in UNITS_PROPS else ""),
             "evaluations": len(all_inst),
             "distinct_nontrivial": len(distinct),
             "rule": "rule instances (rule id, construct) enumerated from /repo's MIR facts and Accounts constraints on this run; `instances` lists every one with its verdict and source location; an instance is non-trivial when its anchor exists and an analysis was evaluated for it (rows answered from an exemption table are counted in evaluations only); distinct = distinct (rule id, construct key) across feature configurations",
